@@ -34,7 +34,7 @@ let run_mll () =
   done with End_of_file -> ())
 
 let kind_of_string = function
-  | "ok" | "okL" | "okB" | "okE" -> KOk | "missing" -> KMissing | "garbage" -> KGarbage | "badhdr" -> KBadHdr | "dir" -> KDir
+  | "ok" | "okL" | "okB" | "okE" -> KOk | "missing" -> KMissing | "garbage" -> KGarbage | "badhdr" -> KBadHdr (i2n 0) | "dir" -> KDir
   | s -> failwith ("kind " ^ s)
 let layout_of_string = function "okL" -> LLegacy | "okB" -> LBig | "okE" -> LLittle | _ -> LNative
 let attr_str (x : fattr) =
